@@ -21,7 +21,8 @@ from harness.common import Run
 APPROACH = {1: 'W', 2: 'W', 3: 'W', 4: 'W', 5: 'W', 8: 'W', 9: 'W', 10: 'W', 16: 'W', 25: 'W', 32: 'W',
             6: 'D', 7: 'D', 17: 'D', 18: 'D', 14: 'R', 15: 'R'}
 
-FAULTS = ['len+1', 'len-1', 'len0', 'flag-optional', 'flag-transitive', 'value', 'truncate-header', 'overrun', 'duplicate']
+FAULTS = ['len+1', 'len-1', 'len0', 'flag-optional', 'flag-transitive', 'value', 'truncate-header', 'overrun', 'duplicate',
+          'mp-nexthop-length']
 
 
 def raw_tlv(flags, code, declared, value, ext):
@@ -83,6 +84,21 @@ def corrupt(rng, desc, code, fault, sess):
         return [with_raw(raw_tlv(fl ^ 0x40, code, len(v), v, ext))]
     if fault == 'value':
         return [with_raw(raw_tlv(fl, code, len(b), b, ext or len(b) > 255)) for b in bad_values(rng, code, a, sess)]
+    if fault == 'mp-nexthop-length':
+        # MP_REACH_NLRI only: every other Length of Next Hop 0..33, with that many next hop octets supplied so that
+        # the rest of the attribute stays consistent
+        if code != 14 or len(v) < 5:
+            return []
+        out = []
+        filler = [0x20, 0x01, 0x0D, 0xB8] + [0] * 11 + [1] + [0xFE, 0x80] + [0] * 13 + [1] + [9]
+        rd = [0] * 8 if v[2] == 128 else []
+        for ln in range(0, 34):
+            if ln == v[3]:
+                continue
+            nh = (rd + filler)[:ln]
+            b = v[:3] + [ln] + nh + v[4 + v[3]:]
+            out.append(with_raw(raw_tlv(fl, code, len(b), b, ext or len(b) > 255)))
+        return out
     if fault == 'truncate-header':
         # the block ends inside the header of this (last) attribute
         full = raw_tlv(fl, code, len(v), v, ext)
@@ -106,7 +122,7 @@ def corrupt(rng, desc, code, fault, sess):
 
 
 VERDICT_HEADER = c02.HEADER + """
-Definition verdict' (s : sess) (b : list Z) := verdict (fun _ _ => false) (mkRS (s_asn4 s) (s_fams s) (s_addpath s)) b.
+Definition verdict' (s : sess) (b : list Z) := verdict (fun _ _ => false) (mkRS (s_asn4 s) (s_fams s) (s_addpath s) (s_extnh s)) b.
 """
 
 
@@ -167,6 +183,19 @@ def judge(c, verdict, rib_after, drops_discard):
         if v is not None and only_zero_length_segments(v, width):
             return (f'C08:as-path-zero-length-segment-accepted:{c["code"]}',
                     'an AS path segment of length zero (RFC 7606 7.2: malformed) is accepted: ' + r[1])
+    if r and c['code'] == 14 and c['fault'] == 'mp-nexthop-length':
+        v = corrupted_value(c)
+        if v is not None and len(v) >= 4:
+            afi, safi, ln = (v[0] << 8) + v[1], v[2], v[3]
+            vpn = safi == 128
+            other_afi = (afi == 2 and ln in ((12,) if vpn else (4,))) or \
+                        (afi == 1 and (afi, safi) not in c['sess'].extnh and ln in ((24,) if vpn else (16, 32)))
+            detail = f'MP_REACH_NLRI {afi}/{safi} with next hop length {ln} on session {c["sess"].key}: ' + r[1]
+            if c['sess'].extnh and other_afi:
+                # a length that is legal for the same SAFI under the other AFI, or for an IPv4 family the RFC 8950
+                # capability was not exchanged for
+                return (f'C08:mp-nexthop-of-other-family-accepted:{afi}/{safi}:{ln}', detail)
+            return (f'C08:mp-nexthop-length-accepted:{afi}/{safi}:{ln}', detail)
     return r
 
 
@@ -263,7 +292,7 @@ def check(tier, seed):
     run.assumptions = [
         'a stricter approach than the type\'s own is accepted (reset >= treat-as-withdraw >= discard); treat-as-withdraw is '
         'judged on what is announced/stored, not on the completeness of the withdrawn list when the block cannot be walked',
-        'sessions negotiate the eight IP families, no extended next hop',
+        'sessions negotiate the eight IP families; two of the six negotiate the RFC 8950 extended next hop',
     ]
     common.standard_build(run, ['T5'])
     from translate import t5_attrtable
@@ -349,7 +378,7 @@ def check(tier, seed):
     run.coverage.update({
         'evaluations': len(cases),
         'distinct_nontrivial': len({bytes(c['body']) for c in cases}),
-        'rule': f'{len(codes)} registered attribute codes (T5) x {bases} well-formed bases x 4 sessions (asn4 x ADD-PATH) x 9 fault kinds '
+        'rule': f'{len(codes)} registered attribute codes (T5) x {bases} well-formed bases x 6 sessions (asn4 x ADD-PATH, two with RFC 8950 extended next hop) x 10 fault kinds (incl. every MP_REACH next hop length 0..33) '
                 f'(several variants each); bases mix IPv4 NLRI and MP_REACH/MP_UNREACH over the 8 IP families; non-trivial = distinct body',
         'fault_outcome_histogram': {f'{k[0]} -> {k[1]}': v for k, v in sorted(dist.items())},
         'verdict_histogram': dict(vdist),
